@@ -79,6 +79,12 @@ class FatIO(io.RawIOBase):
         elif whence != 0:
             raise ValueError(f"Invalid whence {whence}, should be 0, 1 or 2")
 
+        if offset < 0:
+            if whence == 0:
+                raise ValueError(f"negative seek value {offset}")
+            # Relative seeks stop at the beginning, like io.BytesIO
+            offset = 0
+
         offset = min(offset, self.dir_entry.filesize)
         prev_index = self.__cindex
 
